@@ -31,7 +31,7 @@ MANIFEST = {
     'technique': 'bounded-exhaustive enumeration of operation histories on three applications in one process (nested calls, '
                  'Request.copy, object construction inside handlers) replayed on a fresh import, plus exploration of all '
                  'two-thread schedules with bounded preemptions; oracle = handler observations and responses equal the lone run',
-    'text': 'All histories up to depth 2 (quick) / 3 (thorough) over 61 operations, and up to depth 3 / 4 over the 15 error / creation operations, on applications A, B and the default '
+    'text': 'All histories up to depth 2 (quick) / 3 (thorough) over 73 operations, and up to depth 3 / 4 over the 15 error / creation operations, on applications A, B and the default '
             'application, and all schedules with <=1 preemption (thorough: <=2 for the pairs A+B and A:chunked+B:chunked) of requests on two threads, '
             'are executed; each observation of app.request / app.response must show the application\'s own request. Every application registers a before_request hook for itself (the hook log must equal the served sequence); handlers re-read their body around nested requests with bodies; chunked forms and private status codes are part of the menu.',
     'note': 'Bounds: 3 applications, history depth and preemption bound as stated. Trusted: vf/sched.py, the fresh-import loader.',
@@ -41,6 +41,9 @@ HERE = os.path.abspath(__file__)
 APPS = ['A', 'B', 'D']
 NESTED = ['none', 'call', 'copy', 'request', 'response', 'ombott', 'mutq', 'st520s', 'st520n']
 QS = 'tok=1&k=v&k=w'        # the same query string for every request of every application
+
+
+LOOKUPS = ('onlyA', 'onlyB', 'api404', 'sca')
 
 
 def menu():
@@ -73,6 +76,11 @@ def menu():
     # a handler that reads its body before and after another application served a request with a body
     for x, y in (('A', 'B'), ('B', 'D'), ('D', 'A'), ('A', None)):
         m.append(('serve', x, 'pbody', y))
+    # paths that only one application routes, a 404 handler scoped to a prefix (each application has its own), a cookie signed
+    # with A's secret (each application verifies with its own secret)
+    for x in APPS:
+        for k in LOOKUPS:
+            m.append(('serve', x, k, None))
     return m + menu_errors()
 
 
@@ -165,6 +173,9 @@ class World:
             return b1 + b'|' + inner + b'|' + b2
         app.route('/pb/<rid>', 'POST', pbody)
         app.route('/t%s/dm' % name.lower(), 'GET', lambda: 'tenant of ' + name)
+        app.route('/only/%s/<year>' % name.lower(), 'GET', lambda year: f'report {year} of {name}')
+        app.error(404, '/api')(lambda err: f'{name} has no such api call')
+        app.route('/sc', 'GET', lambda: repr(app.request.get_cookie('sess', secret='secret-of-' + name)))
 
         def route_hook(prefix):
             # a route hook that lets another application serve a request of its own (an internal sub-request)
@@ -177,6 +188,13 @@ class World:
         def form(rid):
             return repr((sorted(app.request.forms.items()), sorted(app.request.params.items())))
         app.route('/f/<rid>', 'POST', form)
+
+    def signed_by_a(self):
+        if not hasattr(self, '_signed'):
+            r = self.om.HTTPResponse()
+            r.set_cookie('sess', {'user': 'alice', 'admin': True}, secret='secret-of-A')
+            self._signed = r._cookies['sess'].coded_value
+        return self._signed
 
     def nested(self, name, op):
         kind, y = op
@@ -206,6 +224,12 @@ class World:
             h = {'Accept': 'application/json'} if kind == 'badj' else {}
             if kind == 'dm':
                 env = wsgi.environ('GET', '/dm', qs='who=' + name, headers={'Host': 't.example'})
+            elif kind in ('onlyA', 'onlyB'):
+                env = wsgi.environ('GET', '/only/%s/2024' % kind[-1].lower(), qs='who=' + name, headers=h)
+            elif kind == 'api404':
+                env = wsgi.environ('GET', '/api/v9', qs='who=' + name, headers=h)
+            elif kind == 'sca':
+                env = wsgi.environ('GET', '/sc', qs='who=' + name, headers={'Cookie': 'sess=' + self.signed_by_a()})
             elif kind == 'small':
                 env = wsgi.environ('POST', f'/b/{rid}', qs='who=' + name, body=b'in' + name.encode() + rid.encode(), headers=h)
             elif kind == 'pbody':
@@ -252,7 +276,7 @@ class World:
             errs = sut.sub('request_pkg.errors')
             self.om.Ombott({'errors_map': {errs.BodySizeError: self.om.HTTPError(422, 'own error map')}, 'max_body_size': 4})
             return None
-        if n in ('badj', 'badh', 'big', 'cform'):
+        if n in ('badj', 'badh', 'big', 'cform') + LOOKUPS:
             return self.request(x, None, n)
         if n == 'pbody':
             return self.request(x, ('pbody', y), 'pbody')
@@ -348,7 +372,7 @@ def run_history(hist):
                                              f'application; it saw {resp[2]!r} (its body is {mine!r}), status {resp[0]}')
                         break
                     continue
-                exp = expected_response(name, rid, k) if k not in ('badj', 'badh', 'big', 'cform') else lone_response(name, k, rid)
+                exp = expected_response(name, rid, k) if k not in ('badj', 'badh', 'big', 'cform') + LOOKUPS else lone_response(name, k, rid)
             if resp != exp:
                 v = ('response', f'application {name}, request {rid} answered {resp!r}; alone it answers {exp!r}')
                 break
